@@ -15,8 +15,10 @@ CONSTANTS
   EnvOps <- SmokeOps
   EnvActs <- SmokeActs
   MaxActs = 1
+  WithMonitors = TRUE
 INIT Init
 NEXT Next
 VIEW StView
 INVARIANT TypeOK
+INVARIANT MonitorsQuiet
 CHECK_DEADLOCK FALSE
